@@ -3,7 +3,7 @@ import ast
 
 from ..core import AnalysisError, norm_stmt
 from ..rules import (Fn, guards, guard_dominates, names_in, kwarg, spec_check, is_none_test,
-                     subscript_stores, once_per_iteration)
+                     subscript_stores, once_per_iteration, inventory)
 from ..cfg import target_names
 from .. import sym
 from ..sym import dotted
@@ -96,4 +96,214 @@ def transform_assembly(cx):
         okr = okr and all(isinstance(v, ast.Call) and dotted(kwarg(v, 'transform_fxn')) == tname for v in vals)
     fn.ob('PAIR', 'the callable is what is returned (directly or as the transform_fxn field)', okr, rets[-1] if rets else fn.ast,
           key='return')
+    return fn
+
+
+# ---------------------------------------------------------------------------
+# C09: fit_beads_autofluorescence
+
+FIT = 'mef.fit_beads_autofluorescence'
+FIT_ITEMS = [
+    ('initial slope: line through the two brightest populations in log-log space',
+     'PARAMS[0] = (np.log(fl_mef[-1]) - np.log(fl_mef[-2])) / (np.log(fl_rfi[-1]) - np.log(fl_rfi[-2]))'),
+    ('initial intercept from the brightest population', 'PARAMS[1] = np.log(fl_mef[-1]) - PARAMS[0] * np.log(fl_rfi[-1])'),
+    ('initial autofluorescence from the dimmest population', 'PARAMS[2] = np.exp(PARAMS[0] * np.log(fl_rfi[0]) + PARAMS[1]) - fl_mef[0]'),
+    ('parameter vector has three fresh entries', 'PARAMS = np.zeros(3)'),
+    ('error: squared log-space residual of m*log(rfi)+b = log(mef+auto)',
+     'return np.sum((np.log(Y + P1[2]) - (P1[0] * np.log(X1) + P1[1])) ** 2)'),
+    ('bead model: exp(m*log(x)+b) - auto', 'return np.exp(P2[0] * np.log(X2) + P2[1]) - P2[2]'),
+    ('standard curve: sign(x)*exp(b)*|x|**m (odd, zero at zero)', 'return np.sign(X3) * np.exp(P3[1]) * np.abs(X3) ** P3[0]'),
+    ('the error is evaluated on the given bead pairs', 'EP = lambda PP: EF(PP, fl_rfi, fl_mef)'),
+    ('minimisation from the initial guess with the autofluorescence bounded below by 0 and nothing else bounded',
+     "RES = minimize(EP, PARAMS, bounds=((None, None), (None, None), (0, None)), options={'gtol': 1e-10, 'ftol': 1e-10})"),
+    ('fitted parameters are the minimiser\'s solution', 'BP = RES.x'),
+    ('returned bead model uses the fitted parameters', 'BM = lambda XM: FF(BP, XM)'),
+    ('returned standard curve uses the same fitted parameters', 'SCV = lambda XS: SF(BP, XS)'),
+    ('outputs in the documented order', 'return (SCV, BM, BP, BMS, BPN)'),
+]
+FIT_METAS = {m: m for m in ['PARAMS', 'Y', 'EP', 'EF', 'RES', 'BP', 'BM', 'FF', 'SCV', 'SF', 'BMS', 'BPN', 'PP', 'XM', 'XS']}
+for _m in ('P1', 'P2', 'P3'):
+    FIT_METAS[_m] = 'P'
+for _m in ('X1', 'X2', 'X3'):
+    FIT_METAS[_m] = 'X'
+
+
+def fit_model(cx):
+    fn = Fn(cx, FIT)
+    ok = fn.params == ['fl_rfi', 'fl_mef'] and not fn.ast.args.defaults and not fn.ast.args.kwarg and not fn.ast.args.vararg
+    fn.ob('GUARD', 'the fit takes the two bead lists and nothing else (no state can be passed in or kept)', ok, fn.ast,
+          detail='' if ok else 'signature %s' % fn.params, key='signature')
+    g1 = [g for g, p in guards(fn, exc=['ValueError']) if not p and sym.norm(g.test) == sym.norm('len(fl_rfi) != len(fl_mef)')]
+    g2 = [g for g, p in guards(fn, exc=['ValueError']) if not p and sym.norm(g.test) in (sym.norm('len(fl_rfi) <= 2'), sym.norm('len(fl_rfi) < 3'))]
+    first = [s for s in fn.stmts(ast.Assign) if isinstance(s.targets[0], ast.Name)]
+    for g, inst, key in ((g1, 'lists of different lengths are refused before anything is computed', 'len-mismatch'),
+                         (g2, 'fewer than three populations are refused before anything is computed', 'min-three')):
+        ok = len(g) == 1 and bool(first) and guard_dominates(fn, g[0], False, first[0])
+        fn.ob('GUARD', inst, ok, g[0] if g else fn.ast, key=key)
+    b = inventory(fn, 'FORMULA', FIT_ITEMS, FIT_METAS)
+    # the three helper functions are the ones the lambdas call
+    defs = {f.name: f for f in fn.stmts(ast.FunctionDef)}
+    for m, inst in (('EF', 'error function'), ('FF', 'bead model function'), ('SF', 'standard curve function')):
+        if m in b:
+            nm = b[m][1]
+            ok = nm in defs
+            fn.ob('FORMULA', 'the %s used is the one defined with the documented body' % inst, ok, defs.get(nm, fn.ast), key='helper-' + m)
+    if all(k in b for k in ('EF', 'FF', 'SF')):
+        want = {'EF': 'error: squared', 'FF': 'bead model: exp', 'SF': 'standard curve: sign'}
+        for m, frag in want.items():
+            f = defs.get(b[m][1])
+            rets = [s for s in (f.body if f else []) if isinstance(s, ast.Return)]
+            item = [i for i in FIT_ITEMS if i[0].startswith(frag)][0]
+            ok = len(rets) == 1 and sym.unify(sym.parse_pattern(item[1]), sym.stmt_nf(rets[0]), {}, FIT_METAS) is not None
+            fn.ob('FORMULA', 'helper %s has exactly the documented return' % b[m][1], ok, rets[0] if rets else fn.ast, key='helper-body-' + m)
+    # fitted parameter vector is not shared between calls: nothing assigns into it after the fit
+    if 'BP' in b:
+        bp = b['BP'][1]
+        st = [s for s, t in subscript_stores(fn) if sym.norm(t.value if isinstance(t, ast.Subscript) else t) == ('var', bp)]
+        fn.ob('FORMULA', 'the fitted parameter vector is not written after the fit', not st, st[0] if st else fn.ast, key='bp-immutable')
+    return fn
+
+
+# ---------------------------------------------------------------------------
+# C02: calibration workflow
+
+GTF = 'mef.get_transform_fxn'
+GTF_ITEMS = [
+    ('manufacturer values as a float array (unknown values become NaN)', 'mef_values = np.array(mef_values, dtype=float)'),
+    ('number of subpopulations = number of values per channel', 'NC = len(mef_values[0])'),
+    ('clustering on the clustering channels into that many groups',
+     'LABELS = clustering_fxn(data_beads[:, clustering_channels], NC, **clustering_params)'),
+    ('one group per distinct label', 'UL = np.array(list(set(LABELS)))'),
+    ('events of a group are the events carrying its label (one label per event)', 'POPS = [data_beads[LABELS == LI] for LI in UL]'),
+    ('brightness measure: squared distance of the group mean (clustering channels) to the origin',
+     'PD = [np.sum(np.mean(PO[:, clustering_channels], axis=0) ** 2) for PO in POPS]'),
+    ('groups are ordered by increasing brightness', 'PSI = np.argsort(PD)'),
+    ('... and kept in that order', 'POPS = [POPS[PI] for PI in PSI]'),
+    ('per channel: the channel\'s events of every group, in brightness order', 'PCH = [PO2[:, MCH] for PO2 in POPS]'),
+    ('one statistic per group', 'SV = [statistic_fxn(PO3, **statistic_params) for PO3 in PCH]'),
+    ('... as an array', 'SV = np.array(SV)'),
+    ('selection works on a fresh list of the channel populations', 'SM = selection_fxn([PO4 for PO4 in PCH], **selection_params)'),
+    ('without a selection function every group is selected', 'SM = np.ones(NC, dtype=bool)'),
+    ('groups whose value for THIS channel is unknown are excluded', 'SM = np.logical_and(SM, ~np.isnan(MVC))'),
+    ('selected RFI values', 'SRFI = SV[SM]'),
+    ('selected MEF values, by the same mask', 'SMEF = MVC[SM]'),
+    ('fit on the selected pairs of this channel', 'FO = fitting_fxn(SRFI, SMEF, **fitting_params)'),
+    ('labels reported as computed', "CR['labels'] = LABELS"),
+    ('statistics reported per channel', "SR['values'] = SVR"),
+    ('selected RFI reported per channel', "SELR['rfi'] = SRR"),
+    ('selected MEF reported per channel', "SELR['mef'] = SMR"),
+]
+GTF_METAS = {m: m for m in ['NC', 'LABELS', 'UL', 'POPS', 'LI', 'PD', 'PSI', 'PI', 'PCH', 'MCH', 'SV', 'SM', 'MVC', 'SRFI', 'SMEF', 'FO',
+                            'CR', 'SR', 'SVR', 'SELR', 'SRR', 'SMR']}
+for _m in ('PO', 'PO2', 'PO3', 'PO4'):
+    GTF_METAS[_m] = 'PO'
+
+
+def calibration_workflow(cx):
+    fn = Fn(cx, GTF)
+    loop, pairs = channel_loop(cx, fn)
+    b = inventory(fn, 'FORMULA', GTF_ITEMS, GTF_METAS, fixed={'MCH': pairs[0][0], 'MVC': pairs[1][0]})
+    # ordering: nothing re-orders the populations after the sort; the sort precedes the channel loop
+    pops = b.get('POPS')
+    if pops:
+        defs = [s for s in fn.stmts(ast.Assign) if isinstance(s.targets[0], ast.Name) and s.targets[0].id == pops[1]]
+        ok = len(defs) == 2 and all(d.lineno < loop.lineno for d in defs)
+        mods = [m for m in fn.cfg.nodes if pops[1] in fn.rd.mods[m.id]]
+        inpl = [c for c in fn.calls() if isinstance(c.func, ast.Attribute) and dotted(c.func.value) == pops[1]
+                and c.func.attr in ('sort', 'reverse', 'pop', 'append', 'insert', 'remove')]
+        fn.ob('SLICE', 'the population list is defined by grouping and by the brightness sort only, before the channel loop', ok and not mods and not inpl,
+              defs[-1] if defs else fn.ast, key='order-once')
+    # accumulators
+    names = ['std_crv_res', 'stats_values_res', 'selected_rfi_res', 'selected_mef_res', 'beads_model_res', 'beads_params_res',
+             'beads_model_str_res', 'beads_params_names_res']
+    n = accumulators_once(cx, fn, loop, names)
+    cx.floor('ONCE', n, 8, 'result accumulators')
+    # what is accumulated
+    ap = appends(fn, loop)
+    for acc, meta in (('stats_values_res', 'SV'), ('selected_rfi_res', 'SRFI'), ('selected_mef_res', 'SMEF')):
+        if meta in b and acc in ap:
+            ok = sym.norm(ap[acc][0].value.args[0]) == b[meta]
+            fn.ob('ONCE', '%s collects this channel\'s %s' % (acc, meta), ok, ap[acc][0], key='acc-src-' + acc)
+    # RNG: the only randomness is NumPy's legacy global generator / estimators without their own seed
+    cl = Fn(cx, 'mef.clustering_gmm')
+    rnd = []
+    for f in (fn, cl, Fn(cx, 'mef.selection_std'), Fn(cx, FIT)):
+        for c in f.calls():
+            d = dotted(c.func) or ''
+            if 'random' in d:
+                rnd.append((f, c, d))
+    ok = len(rnd) == 1 and rnd[0][2] == 'np.random.choice'
+    cl.ob('RNG', 'the only random draw is np.random.choice (legacy global generator, reproducible under np.random.seed)', ok,
+          rnd[0][1] if rnd else cl.ast, detail=str([r[2] for r in rnd]), key='rng-sites')
+    gm = cl.calls('GaussianMixture')
+    ok = len(gm) == 1 and kwarg(gm[0], 'random_state') is None
+    cl.ob('RNG', 'the mixture estimator gets no private random state', ok, gm[0] if gm else cl.ast, key='rng-gmm')
+    return fn
+
+
+GMM_ITEMS = [
+    ('events are copied before rescaling', 'data = data.copy()'),
+    ('equal initial weights', 'W = np.tile(1.0 / n_clusters, n_clusters)'),
+    ('distance to the minimum corner', 'DIST = np.sum((data - np.min(data, axis=0)) ** 2.0, axis=1)'),
+    ('events ordered by that distance', 'SI = np.argsort(DIST)'),
+    ('expected events per cluster', 'NPC = data.shape[0] / float(n_clusters)'),
+    ('lower quantile bound of cluster i', 'IL = int((I + DF / 2) * NPC)'),
+    ('upper quantile bound of cluster i', 'IH = int((I + 1 - DF / 2) * NPC)'),
+    ('events of the quantile slice', 'SIC = SI[IL:IH]'),
+    ('their values', 'DC = data[SIC]'),
+    ('initial mean of the cluster', 'MEANS.append(np.mean(DC, axis=0))'),
+    ('covariance regularised on its diagonal for every cluster', 'COV += np.eye(data.shape[1]) * min_covar'),
+    ('initial covariance of the cluster', 'COVARS.append(COV)'),
+    ('fit on the rescaled events', 'GMM.fit(data)'),
+    ('responsibilities of every event', 'RESP = GMM.predict_proba(data)'),
+    ('one label per event sampled from its responsibilities', 'LBL = [np.random.choice(range(n_clusters), p=RI) for RI in RESP]'),
+    ('labels returned', 'return LBL'),
+]
+
+
+def clustering(cx):
+    fn = Fn(cx, 'mef.clustering_gmm')
+    b = inventory(fn, 'FORMULA', GMM_ITEMS, ['W', 'DIST', 'SI', 'NPC', 'IL', 'IH', 'I', 'DF', 'SIC', 'DC', 'MEANS', 'COV', 'COVARS',
+                                             'GMM', 'RESP', 'LBL', 'RI'])
+    # the regularisation is applied on every path of the per-cluster loop
+    reg = [s for s in fn.stmts(ast.AugAssign) if 'min_covar' in ast.unparse(s)]
+    if reg:
+        lp = [a for a in fn.ancestors(reg[0]) if isinstance(a, ast.For)]
+        ok = bool(lp) and any(reg[0] is x for x in lp[0].body)
+        fn.ob('FORMULA', 'the covariance regularisation is unconditional (also for a single clustering channel)', ok, reg[0], key='reg-unconditional')
+    gm = fn.calls('GaussianMixture')
+    if gm:
+        ok = sym.norm(gm[0]) == sym.norm("GaussianMixture(n_components=n_clusters, tol=tol, covariance_type='full', weights_init=%s, means_init=%s, precisions_init=precisions, max_iter=500)"
+                                         % (b.get('W', ('var', 'weights'))[1], 'means'))
+        fn.ob('FORMULA', 'the mixture is initialised with the quantile means, weights and precisions', ok, gm[0], key='gmm-args')
+    return fn
+
+
+SEL_ITEMS = [
+    ('default low threshold: 1.5% above the lower range limit (in scaled units)', 'low = SF(R[0]) + 0.015 * (SF(R[1]) - SF(R[0]))'),
+    ('default high threshold: 98.5% of the range (in scaled units)', 'high = SF(R[0]) + 0.985 * (SF(R[1]) - SF(R[0]))'),
+    ('given thresholds are rescaled', 'low = SF(low)'),
+    ('given thresholds are rescaled (high)', 'high = SF(high)'),
+    ('populations are copied into a new list', 'populations = [P.copy() for P in populations]'),
+    ('population means in scaled units', 'PM = np.array([FlowCal.stats.mean(P2) for P2 in populations])'),
+    ('population standard deviations in scaled units', 'PS = np.array([FlowCal.stats.std(P3) for P3 in populations])'),
+    ('minimum standard deviation', 'MS = 0.005'),
+    ('... enforced', 'PS[PS < MS] = MS'),
+    ('a population is selected iff mean -/+ n_std*std stays strictly inside (low, high)',
+     'SM = np.logical_and(PM - n_std_low * PS > low, PM + n_std_high * PS < high)'),
+    ('the mask is returned', 'return SM'),
+]
+SEL_METAS = {m: m for m in ['SF', 'R', 'PM', 'PS', 'MS', 'SM']}
+for _m in ('P', 'P2', 'P3'):
+    SEL_METAS[_m] = 'P'
+
+
+def selection(cx):
+    fn = Fn(cx, 'mef.selection_std')
+    inventory(fn, 'FORMULA', SEL_ITEMS, SEL_METAS)
+    # default thresholds only when none are given
+    for p in ('low', 'high'):
+        blk = [s for s in fn.stmts(ast.If) if is_none_test(s.test, p)]
+        fn.ob('NULLDEFAULT', 'threshold %s is derived from the range only when it is not given' % p, len(blk) == 1, blk[0] if blk else fn.ast,
+              key='default-' + p)
     return fn
